@@ -157,7 +157,9 @@ def position_script(pos, tree):
 
 
 def main():
-    chk = Check('C02', extra_modules=['Bardolph.Props.C02Climb', 'Bardolph.Proofs.Climb', 'Bardolph.Proofs.VmSteps'])
+    chk = Check('C02', extra_modules=['Bardolph.Props.C02Climb', 'Bardolph.Proofs.Climb', 'Bardolph.Proofs.VmSteps',
+                                    'Bardolph.Props.C02Bridge', 'Bardolph.Proofs.ExprBridge',
+                                    'Bardolph.Proofs.ExprBridgeSim'])
     chk.lean_phase(sections={'ExprTables'})
     rng = chk.rng
     stats = {'expressions': 0, 'undefined_skipped': 0, 'by_position': {}, 'depths': {},
@@ -259,6 +261,36 @@ def main():
             stats['pratt_mismatch'] += 1
             chk.disagreement('expr.parse', {'tokens': ' '.join(progs.expr_tokens(c.tree))},
                              ' '.join(impl)[:200], a[:200])
+    # 2b. `not` (a whole expression follows it) and rejected token lists: the model precedence
+    # climber must accept exactly what the real expression parser accepts, with the same code
+    not_cases = ['not x', 'not x + y', '1 + not 2 * 3', 'not ( x and y )', 'not not x', 'x and not y',
+                 'x or not y and z', '- not x', 'not - x', '( not x ) + 1', 'x ^ not y', 'not x ^ y',
+                 'x not y', 'not', 'x +', '+ ', '( x', 'x )', 'x + * y', '( )', 'x y', 'not )', '1 + ( 2']
+    reqs2, impl2 = [], []
+    for text_toks in not_cases:
+        toks = text_toks.split()
+        parser = Parser()
+        text = 'assign x 1 assign y 1 assign z 1 assign r { ' + ' '.join(toks) + ' }'
+        ok = parser.parse(text)
+        code = [percent_encode(w) for w in vmwire.enc_program(list(parser.get_program())[3:-1])] if ok else None
+        wire = []
+        for t in toks:
+            if t in ('(', ')') or t in OPS or t == 'not':
+                wire.append(t)
+            elif t[0].isdigit():
+                wire.append('n:' + progs.val_atom(int(t)))
+            else:
+                wire.append('v:' + t)
+        reqs2.append(('expr.parse', wire))
+        impl2.append((text_toks, code))
+    answers2 = chk.driver.ask_many(reqs2)
+    stats['pratt_not_and_reject_requests'] = len(reqs2)
+    for (text_toks, impl), a in zip(impl2, answers2):
+        model = None if a == 'reject' else (a.split('\x1f') if a else [])
+        chk.count()
+        if model != impl:
+            stats['pratt_mismatch'] += 1
+            chk.disagreement('expr.parse', {'tokens': text_toks}, str(impl)[:200], a[:200])
     # 3. the whole pipeline on expression-heavy programs (model Gen / VM / Sem)
     sub = cases[: (400 if chk.thorough else 60)]
     progcheck.run_cases(chk, [progcheck.Case(c.prog, c.pop) for c in sub], stats=stats,
